@@ -75,10 +75,11 @@ type c16Ev struct {
 }
 
 type c16Case struct {
-	Long      int // length of an inserted stretch of event-less blocks (0: none)
-	Blocks    []c16Ev
-	Gaps      []int // tip advance per poll
-	RestartAt int
+	ForkMidPoll bool // the L2 fork happens between the node's range query and its header cross-check
+	Long        int  // length of an inserted stretch of event-less blocks (0: none)
+	Blocks      []c16Ev
+	Gaps        []int // tip advance per poll
+	RestartAt   int
 	// an L2 reorg: at the ForkStep-th tip poll the blocks ForkAt..end are replaced by ForkSuffix (ForkAt is above the
 	// finalized block of that moment and at or below the visible tip). ForkAt == 0: no reorg.
 	ForkStep   int
@@ -212,6 +213,7 @@ func c16Gen(rt *rapid.T) c16Case {
 				}
 			}
 			c.ForkStep, c.ForkAt = step, uint64(at)
+			c.ForkMidPoll = rapid.Bool().Draw(rt, "forkDuringHeaderCrossCheck")
 			c.ForkSuffix, _, _ = c16GenEvents(rt, nil, live, idx+100, at, n, 0xf0)
 		}
 	}
@@ -345,6 +347,7 @@ func c16Run(c c16Case) (verdict string, inconcl string) {
 		rpcs      int
 		restarted bool
 		forked    bool
+		armed     bool // the fork waits for the node's next header cross-check (ForkMidPoll)
 		midPoll   bool
 		cancelFn  context.CancelFunc
 		// observation O7: EVMDriver.handleReorg retries processor.Reorg for ever on a cancelled context, so Sync does not
@@ -371,14 +374,32 @@ func c16Run(c c16Case) (verdict string, inconcl string) {
 			cancelledAt = time.Now()
 			cancelFn()
 		}
+		doFork := func() {
+			forked = true
+			var suffix [][]types.Log
+			for _, e := range c.ForkSuffix {
+				suffix = append(suffix, c16EvLogs(e))
+			}
+			ch.ForkLocked(c.ForkAt, suffix)
+			// the new fork shows as much as the old one did
+			fin := uint64(0)
+			if lat > 3 {
+				fin = lat - 3
+			}
+			ch.SetPointersLocked(lat, lat, fin)
+		}
+		if armed && !forked && call.Method == "HeaderByNumber" && call.Tag == "" && call.Num >= c.ForkAt {
+			// the chain forks while the node is cross-checking the headers of the range it has just fetched
+			doFork()
+		}
 		if call.Method == "HeaderByNumber" && call.Tag == "latest" {
 			if c.ForkAt != 0 && step == c.ForkStep && !forked {
-				forked = true
-				var suffix [][]types.Log
-				for _, e := range c.ForkSuffix {
-					suffix = append(suffix, c16EvLogs(e))
-				}
-				ch.ForkLocked(c.ForkAt, suffix)
+				doFork() // at the tip poll (also the fall-back of a mid-poll fork that found no header cross-check)
+			}
+			if c.ForkAt != 0 && c.ForkMidPoll && step+1 == c.ForkStep && !forked {
+				// this poll shows the tip the fork was generated for; the fork happens at the node's next cross-check of a
+				// header at or above the fork point (the finalized block reported meanwhile stays below it)
+				armed = true
 			}
 			if step < len(c.Gaps) {
 				lat = min64(lat+uint64(c.Gaps[step]), n)
